@@ -48,6 +48,13 @@ def gen(rng, n):
             d["DGRAM_START"] = rng.choice([0, d["MIGRATE_AT"] - 5000, d["MIGRATE_AT"]])
             d["ECHO_BYTES"] = rng.choice([0, 20000])
             d["LINK_MTU"] = max(d["LINK_MTU"], 1452)
+        if rng.chance(1, 5):
+            # an application close with a reason about as long as a packet (truncated to fit), while ACK
+            # ranges are pending: the close datagram must still respect the MTU
+            d["CLOSE_REASON_LEN"] = rng.choice([1100, 1300, 1500, 3000])
+            d["CLOSER"] = rng.choice([0, 1, 2])
+            if rng.chance(1, 2):
+                d["CLOSE_AT"] = rng.choice([40000, 80000, 150000])
         d["MAX_TIME"] = 20_000_000
         cases.append(S.case_of(d))
     return cases
